@@ -21,6 +21,25 @@ CLASH = [
 ]
 
 
+# systematic histories: what a previous call may leave behind x what the next call would notice
+def _setups():
+    out = []
+    decls = ["typedef int T;", "int T;", "typedef int T; typedef int U;", "enum { T };", "int T(void);", "struct T { int a; };"]
+    tails = ["", " int ok;", " int x = ;", " void f(void) { T x; x = ; }", " void f(void) { { { int y = @; } } }",
+             " void f(int T) { { T = ; } }", " void f(void) { { typedef int U; { U u = ; } } }", " struct S { int m; ",
+             " void f(void) { for (int T = 0;;) { ; ", " int a[] = { 1, { 2, ", " void f(void) { switch (T) { case 1: { ",
+             "\n# 7 \"h.h\"\n void f(void) { int z = ; }", " void f(void) {\n#pragma p\n", " _Pragma(", " void f(void) { if (1) { typedef char T; T c = ; } }"]
+    for d in decls:
+        for t in tails:
+            out.append(d + t)
+    return out
+
+
+PROBES = ["T * x;", "void g(void) { T * y; }", "void g(void) { (T)(y); }", "void g(void) { T (y); }", "int T;", "T a;", "typedef int T; T b;",
+          "int v = sizeof(T);", "void g(int T) { T = 1; }", "U * u;", "void g(void) { U * w; }", "int q = 1;\n#pragma tail", "void g(void) { x = 1; }",
+          "struct T t;", "enum E { U = 1 }; int r = U;"]
+
+
 def result_key(r):
     if r[0] == "OK":
         return ("OK", dump(r[1], True))
@@ -126,9 +145,18 @@ def run(ctx):
     nseq = 150 if ctx.quick() else 3000
     seqs = [([rng.choice(items) for _ in range(rng.choice([2, 3, 5, 8, 12]))],) for _ in range(nseq)]
     # always include: same text twice, clash sequences in order
+    setups = _setups()
+    for a in setups:
+        seqs.append(([a] + PROBES,))                      # every probe right after the setup? no: see below
+    for a in setups:
+        for pr in PROBES:
+            seqs.append(([a, pr],))
+    for a in rng.sample(setups, 12 if ctx.quick() else len(setups)):
+        for b in rng.sample(setups, 6 if ctx.quick() else 30):
+            seqs.append(([a, b] + rng.sample(PROBES, 4),))
     seqs.append((CLASH + CLASH,))
     seqs.append(([pool[0], pool[0], CLASH[3], pool[0]],))
-    ctx.rule("%d sequences of 2-12 parse calls on one CParser instance (valid programs of the pool, programs truncated at arbitrary tokens - leaving scopes open -, programs with clashing typedef/variable names, linemarkers, lexer errors), each call compared (AST incl. coordinates, or exception message) with a fresh instance; ASTs of different calls must share no node object; the same CGenerator instance is reused across the successful calls; a CLexer is reused through input() after being abandoned mid-stream" % len(seqs))
+    ctx.rule("%d sequences of 2-16 parse calls on one CParser instance (systematic: 6 file-scope declarations of a name x 15 continuations that succeed or fail at nesting depth 0-3 / inside a struct, for-init, initializer, switch, pragma, after a linemarker, each followed by each of 15 probes whose parse depends on what the name is; pairs of such setups; random: valid programs of the pool, programs truncated at arbitrary tokens - leaving scopes open -, programs with clashing typedef/variable names, linemarkers, lexer errors), each call compared (AST incl. coordinates, or exception message) with a fresh instance; ASTs of different calls must share no node object; the same CGenerator instance is reused across the successful calls; a CLexer is reused through input() after being abandoned mid-stream" % len(seqs))
     res = pmap(run_sequence, seqs)
     for (texts,), probs in zip(seqs, res):
         for k, why in probs:
